@@ -233,6 +233,23 @@ func init() {
 	})
 }
 
+func nodeUnit(name, run string, quick, thorough int) unit {
+	return unit{Name: name, Pkg: ".", Harness: "main", Run: run, Rapid: true, Quick: quick, Thorough: thorough, QuickTimeoutS: 900, ThoroughTimeoutS: 3400}
+}
+
+func init() {
+	props = append(props, prop{
+		ID: "C10", Title: "a retried POST is never applied twice", Level: "exploration",
+		LevelText:  "An in-process single node (real raft, LevelDB stores, output stream and api.HTTP) is driven by generated action sequences: sessions post lines through POST .../message, repeat the last POST with the same client message id 1-3 times (after other sessions' traffic, after forced snapshots, after restarts that restore from the snapshot, after the session ended, after an injected already-marked message-of-death entry). Every retry must be acknowledged and leave raft's last index, the log copy, and the output stream untouched; after every action the duplicate-detection marker of every session is compared between the live node and a replica that replays the durable raft log; at the end an observer's stream must contain every posted text exactly once.",
+		LevelNote:  "Retries are generated only after the first copy has been applied on the handling node (the property's quantifier); client message ids are non-zero. After the session ended a retry may be answered 404 (the bridge stops then) but must still not be applied.",
+		Technique:  "stateful property-based testing (rapid) of the real HTTP handler + raft + FSM against invariants over log length, output and replica markers",
+		DesignRef:  "4/C10",
+		Rule:       "case = 4-30 generated actions (create/line/retry/message-of-death/delete/snapshot/restart) on up to 5 sessions; non-trivial = a retry that follows another session's message or a snapshot/restart; distinct = hash of the action list",
+		Assumptions: []string{"single voter raft in-process; PostMessageCooloff=0 installed through POST /config"},
+		Units:      []unit{nodeUnit("node", "^TestVerifC10$", 480, 12000)},
+	})
+}
+
 // notApplicable lists properties that are not claimed (yet), with the reason.
 var notApplicable = map[string]string{}
 
